@@ -121,30 +121,38 @@ func (h *Handler) delete(lease *Lease) {
 	delete(h.table, string(lease.ClientID))
 }
 
+// available reports whether ip can be offered to lease: it must be a host address of the
+// lease's subnet other than the subnet gateway, the host and the router, it must not be
+// the address of another client's lease and it must not be known to the session.
+func (h *Handler) available(lease *Lease, ip netip.Addr) bool {
+	subnet := lease.subnet
+	if !ip.Is4() || !subnet.LAN.Contains(ip) || ip == subnet.LAN.Addr() || ip == subnet.broadcast ||
+		ip == subnet.DefaultGW || ip == h.session.NICInfo.HostAddr4.IP || ip == h.session.NICInfo.RouterAddr4.IP {
+		return false
+	}
+	if l := h.findByIP(ip); l != nil && l.State != StateFree && !bytes.Equal(l.ClientID, lease.ClientID) {
+		return false
+	}
+	return h.session.FindIP(ip) == nil
+}
+
 // allocIPOffer allocates a free IP to the lease entry
 func (h *Handler) allocIPOffer(lease *Lease, reqIP netip.Addr) error {
-	if reqIP.Is4() {
-		if l := h.findByIP(reqIP); l == nil || l.State == StateFree || bytes.Equal(l.ClientID, lease.ClientID) {
-			if h.session.FindIP(reqIP) == nil {
-				lease.IPOffer = reqIP
-				if Logger.IsInfo() {
-					Logger.Msg("offer").IP("ip", lease.IPOffer).Write()
-				}
-				return nil
-			}
+	if h.available(lease, reqIP) {
+		lease.IPOffer = reqIP
+		if Logger.IsInfo() {
+			Logger.Msg("offer").IP("ip", lease.IPOffer).Write()
 		}
+		return nil
 	}
 
 	// search in remaining space to deliver sequential addresses
 	var ip netip.Addr
 	for lease.subnet.nextIP.Less(lease.subnet.broadcast) {
-		// for tmpIP.IsValid() {
-		if l := h.findByIP(lease.subnet.nextIP); l == nil || l.State == StateFree {
-			if h.session.FindIP(lease.subnet.nextIP) == nil {
-				ip = lease.subnet.nextIP
-				lease.subnet.nextIP = lease.subnet.nextIP.Next()
-				break
-			}
+		if h.available(lease, lease.subnet.nextIP) {
+			ip = lease.subnet.nextIP
+			lease.subnet.nextIP = lease.subnet.nextIP.Next()
+			break
 		}
 		lease.subnet.nextIP = lease.subnet.nextIP.Next()
 	}
@@ -156,12 +164,10 @@ func (h *Handler) allocIPOffer(lease *Lease, reqIP netip.Addr) error {
 	// search across full subnet in case other IPs were freed
 	lease.subnet.nextIP = lease.subnet.FirstIP
 	for lease.subnet.nextIP.Less(lease.subnet.broadcast) {
-		if l := h.findByIP(lease.subnet.nextIP); l == nil || l.State == StateFree {
-			if h.session.FindIP(lease.subnet.nextIP) == nil {
-				ip = lease.subnet.nextIP
-				lease.subnet.nextIP = lease.subnet.nextIP.Next()
-				break
-			}
+		if h.available(lease, lease.subnet.nextIP) {
+			ip = lease.subnet.nextIP
+			lease.subnet.nextIP = lease.subnet.nextIP.Next()
+			break
 		}
 		lease.subnet.nextIP = lease.subnet.nextIP.Next()
 	}
